@@ -51,7 +51,9 @@ def gen_case(rng):
     return {"n": n, "bases": bases, "vp": vp, "kinds": kinds, "defs": defs,
             "base_policy": rng.choice(["debug", "release"]),
             "extra_int": rng.random() < 0.3,
-            "int_ids": ids}
+            "int_ids": ids,
+            # the order in which register_classes lists the classes is free
+            "reg_order": rng.sample(range(n), n)}
 
 
 def case_key(case):
@@ -169,7 +171,7 @@ def emit(case):
         for c in range(n):
             out.append("using VP%d = virtual_ptr<K%d, POL>;" % (c, c))
         out.append("register_classes(%s, POL);" % ", ".join(
-            "K%d" % c for c in range(n)))
+            "K%d" % c for c in case.get("reg_order", range(n))))
         params = [decl(k, p) for k, p in zip(case["kinds"], case["vp"])]
         if case["extra_int"]:
             params.insert(1 if len(params) > 1 else 0, "int")
